@@ -905,7 +905,7 @@ func (sy *Sym) execIf(fn *ssa.Function, b *ssa.BasicBlock, x *ssa.If, st *symSta
 	// a test decided by the values on this path (the counter of a loop over a
 	// literal list against its constant length): this visit of the block does not
 	// use up the unrolling bound — up to a hard cap, so a constant-true loop still ends
-	if c := sy.val(st, x.Cond); c.Op == "const" && c.K != nil && c.K.Kind() == constant.Bool && st.concrete < 24 && st.visit[b] > 0 {
+	if c := sy.val(st, x.Cond); c.Op == "const" && c.K != nil && c.K.Kind() == constant.Bool && st.concrete < 64 && st.visit[b] > 0 {
 		st.concrete++
 		st.visit[b]--
 		for d := range st.visit {
